@@ -230,7 +230,7 @@ pub fn check_seed_ex(seed: &Seed, opt_sets: &[u32], widths: &[usize], with_sigs_
                     out.failures.push(Failure { signature: format!("C01:{}:decompile-failed:{}", seed.host, seed.label), detail: detail("decompile-failed", json!({"diag": d.diag})) }); continue;
                 };
                 if LOSS_WARNINGS.iter().any(|wn| d.diag.contains(wn)) { out.exempt += 1; out.classes.push("exempt:loss-warning".into()); continue; }
-                if bits == 31 && w == 99 && *mapname == "none" { raw_text = Some(text.clone()); }
+                if bits & 31 == 31 && bits < 32 && w == 99 && *mapname == "none" { raw_text = Some(text.clone()); }
                 if bits == 0 && w == 99 { if let Some(rt) = &raw_text { if *rt != text { out.nontrivial = true; } } }
                 if text.contains(':') && (text.contains("label") || text.contains("+")) || text.contains('"') { out.nontrivial |= seed.bytes.len() > 64; }
                 let image_sources: Vec<&[u8]> = if seed.tool.kind == Kind::Anm { vec![&seed.bytes[..]] } else { vec![] };
@@ -429,13 +429,14 @@ pub fn run(tier: &str) -> Report {
     rep.extra.insert("bundled_files".into(), json!(seeds.len() - n_generated));
     rep.states = seeds.len() as u64;
     // ---------- round trips
-    let opt_sets: Vec<u32> = if thorough { (0..32).collect() } else { vec![0, 1, 2, 4, 8, 16, 31] };
+    // bits 1..16 = the five --no-* flags, 32 = --show-instr-offsets
+    let opt_sets: Vec<u32> = if thorough { (0..64).collect() } else { vec![0, 1, 2, 4, 8, 16, 31, 32, 33] };
     let widths: Vec<usize> = if thorough { vec![99, 1, 20, 40, 79, 200] } else { vec![99, 20] };
     let results = par_map(&seeds, Some(deadline), |i, s| {
         // bundled files and every 50th generated seed get all widths 1..=200 (thorough) on the default options
         // seeds of the all-games hosts: default and all-off options at the default width (quick tier)
         let light = !thorough && (s.host.contains("-th") || s.host.contains("-alcostg"));
-        let o = if light { check_seed_ex(s, &[0, 31], &[99], false) } else { check_seed_ex(s, &opt_sets, &widths, thorough || i % 8 == 0) };
+        let o = if light { check_seed_ex(s, &[0, 31, 32], &[99], false) } else { check_seed_ex(s, &opt_sets, &widths, thorough || i % 8 == 0) };
         let extra = if s.source.is_none() || i % 50 == 0 { let ws: Vec<usize> = if thorough { (1..=200).collect() } else { vec![1, 2, 3, 10, 40, 79, 80, 100, 200] }; Some(check_seed(s, &[0], &ws)) } else { None };
         (o, extra)
     });
